@@ -22,6 +22,9 @@ CONSTANTS
   AllowKF,     \* TRUE: the known deviation (stale read of a pendingDel key) is a behaviour
   Taint,       \* TRUE: explicit Set may write a value the database does not hold
   Flips,       \* TRUE: the harness may toggle the store inside a query
+  Cuts,        \* positions at which an outage may begin inside an operation (1: before its first store access,
+               \* n: after its (n-1)-th); {}: outages begin between operations only
+  CutTail,     \* generation only: an outage begins inside an operation only in the last CutTail operations of a history
   MaxOps,      \* generation only: longest history
   Emit         \* TRUE: print histories
 
@@ -32,7 +35,7 @@ VARIABLES
 
 mvars == <<now, db, cache, down, pendingDel, tainted, cfg, cl, calls, running, qres, tasks, last, hist>>
 
-Base(op, k) == [op |-> op, k |-> k, v |-> 0, dbf |-> FALSE, dbf2 |-> FALSE, flip |-> FALSE, d |-> 0, e |-> 0,
+Base(op, k) == [op |-> op, k |-> k, v |-> 0, dbf |-> FALSE, dbf2 |-> FALSE, flip |-> FALSE, cut |-> 0, d |-> 0, e |-> 0,
                 ks |-> <<>>, upd |-> <<>>, r |-> "", rv |-> 0, nq |-> 0, kf |-> FALSE, n |-> 0]
 
 MInit == CInit(NP, NI, ExpDs, NfDs) /\ tasks = {} /\ last = Base("none", 0) /\ hist = <<>>
@@ -48,23 +51,41 @@ Log(rec) == /\ last' = [rec EXCEPT !.n = last.n + 1]
             /\ hist' = IF Emit THEN Append(hist, rec) ELSE hist
 
 \* ---- cached reads
+\* an outage that begins inside the operation, before its cut-th store access (the accesses: Stages)
+\* (generation: only as one of the last CutTail operations of a history - what the operation leaves in the store is
+\* judged at once, what the cleaner owes shortly after)
+CutsHere == IF Emit /\ Len(hist) < MaxOps - CutTail THEN {} ELSE Cuts
+CutChoices(stages) == {0} \cup {c \in CutsHere : c = 1 \/ (stages >= 2 /\ c <= stages + 1)}
+
 MTake(k) ==
   \E dbf, flip \in BOOLEAN : \E t \in TTLs(IF db[k] = Absent THEN NfDs ELSE ExpDs, 0) :
-    LET o == DoTake(cache, down, down # flip, k, ExpDs, dbf, t)
+    \E cut \in CutChoices(IF ~Present(k) /\ ~dbf THEN 2 ELSE 1) :
+    LET o == DoTake(cache, down \/ cut = 1, IF cut = 0 THEN down # flip ELSE cut <= 2, k, ExpDs, dbf, t)
         kf == o.hit /\ Stale(k) IN
+      /\ cut > 0 => ~down /\ ~flip /\ ~dbf
       /\ (dbf \/ flip) => (o.nq = 1)                 \* inputs that cannot matter are not enumerated
       /\ flip => Flips
-      /\ (o.nq = 0 \/ dbf \/ (down # flip)) => t = Lo(IF db[k] = Absent THEN NfDs ELSE ExpDs)
+      /\ (o.nq = 0 \/ dbf \/ o.c = cache) => t = Lo(IF db[k] = Absent THEN NfDs ELSE ExpDs)
       /\ kf => AllowKF
-      /\ Take(k, o.r, o.v, o.nq, dbf, flip, t, kf)
-      /\ Log([Base("take", k) EXCEPT !.dbf = dbf, !.flip = flip, !.r = o.r, !.rv = o.v, !.nq = o.nq, !.kf = kf])
+      /\ Take(k, o.r, o.v, o.nq, dbf, flip, cut, 0, t, kf)
+      /\ cache' = o.c
+      /\ Log([Base("take", k) EXCEPT !.dbf = dbf, !.flip = flip, !.cut = cut, !.r = o.r, !.rv = o.v, !.nq = o.nq, !.kf = kf])
       /\ UNCHANGED tasks
+
+IdxStages(i, dbfi, dbfp) ==
+  IF down THEN 1
+  ELSE IF IdxHitPath(i) THEN (IF ~Present(cache[i].v) /\ ~dbfp THEN 3 ELSE 2)
+  ELSE IF Present(i) \/ dbfi THEN 1
+  ELSE IF db[i] = Absent THEN 2 ELSE 3
 
 MIndex(i) ==
   \E dbfi, dbfp, flip \in BOOLEAN : \E ti \in TTLs(IF db[i] = Absent THEN NfDs ELSE ExpDs, 0) :
     \E tp \in TTLs(ExpDs, 0) \cup TTLs(ExpDs, Gap) \cup TTLs(NfDs, 0) :
-      LET o == DoIndex(i, dbfi, dbfp, flip, ti, tp)
+    \E cut \in CutChoices(IdxStages(i, dbfi, dbfp)) :
+      LET pt == IF cut = 0 THEN CHOOSE x \in IdxPatterns(i, flip, 0) : TRUE ELSE <<cut <= 1, cut <= 2, cut <= 3>>
+          o == DoIndex(i, dbfi, dbfp, pt[1], pt[2], pt[3], ti, tp)
           kf == \E k \in o.hits : Stale(k) IN
+        /\ cut > 0 => ~down /\ ~flip
         /\ flip => Flips
         /\ kf => AllowKF
         \* inputs that cannot matter are not enumerated
@@ -73,8 +94,9 @@ MIndex(i) ==
         /\ flip => o.qi + o.qp = 1
         /\ o.c[i] = cache[i] => ti = Lo(IF db[i] = Absent THEN NfDs ELSE ExpDs)
         /\ (\A p \in PKeys : o.c[p] = cache[p]) => tp = Lo(ExpDs)
-        /\ Index(i, o.r, o.v, o.qi, o.qp, dbfi, dbfp, flip, ti, tp, kf)
-        /\ Log([Base("index", i) EXCEPT !.dbf = dbfi, !.dbf2 = dbfp, !.flip = flip, !.r = o.r, !.rv = o.v,
+        /\ Index(i, o.r, o.v, o.qi, o.qp, dbfi, dbfp, flip, cut, 0, ti, tp, kf)
+        /\ cache' = o.c
+        /\ Log([Base("index", i) EXCEPT !.dbf = dbfi, !.dbf2 = dbfp, !.flip = flip, !.cut = cut, !.r = o.r, !.rv = o.v,
                   !.nq = o.qi + o.qp, !.kf = kf])
         /\ UNCHANGED tasks
 
@@ -88,10 +110,14 @@ MGet(k) ==
 \* ---- explicit cache writes
 MSet(k) ==
   \E v \in (IF IsIndex(k) THEN {p \in PKeys : db[p] # Absent} ELSE Vals) : \E e \in {ExpDs} \cup SetExpDs : \E t \in TTLs(e, 0) :
+    \E cut \in {0} \cup {c \in CutsHere : c <= 2} :               \* 1: refused, 2: the outage begins when the write is complete
     /\ (v # Want(k)) => Taint
-    /\ down => (t = Lo(e) /\ e = ExpDs)
-    /\ Set(k, v, e, IF down THEN "cerr" ELSE "ok", t, FALSE)
-    /\ Log([Base("set", k) EXCEPT !.v = v, !.e = IF e = ExpDs THEN 0 ELSE e, !.r = IF down THEN "cerr" ELSE "ok"])
+    /\ cut > 0 => ~down /\ e = ExpDs
+    /\ (down \/ cut = 1) => (t = Lo(e) /\ e = ExpDs)
+    /\ Set(k, v, e, IF down \/ cut = 1 THEN "cerr" ELSE "ok", t, FALSE, cut)
+    /\ cut = 2 => cache'[k] # cache[k] \/ cache'[k] = Entry(v, t)
+    /\ Log([Base("set", k) EXCEPT !.v = v, !.cut = cut, !.e = IF e = ExpDs THEN 0 ELSE e,
+              !.r = IF down \/ cut = 1 THEN "cerr" ELSE "ok"])
     /\ UNCHANGED tasks
 
 \* ---- database writes with invalidation (the premise: the keys cover what changes)
@@ -102,19 +128,25 @@ Updates ==
   \cup {Fn1(i, Absent) : i \in IKeys}
 Effective(u) == \E k \in DOMAIN u : u[k] # db[k]
 
+\* goctl-generated models invalidate the primary key and every index key of the row they touch
+Extras(u) == {{}} \cup {{i \in IKeys : db[i] \in DOMAIN u}}
+
 MWrite ==
-  \E u \in Updates : \E dbf \in BOOLEAN :
+  \E u \in Updates : \E dbf \in BOOLEAN : \E extra \in Extras(u) :
     /\ Effective(u)
     /\ \A k \in DOMAIN u : u[k] # db[k] \/ u[k] = Absent
-    /\ LET ks == DOMAIN u
-           failedDel == ~dbf /\ down IN
-         /\ Write(u, ks, dbf, IF dbf THEN "dberr" ELSE "ok", {})
-         /\ tasks' = IF failedDel THEN tasks \cup ks ELSE tasks
-         /\ Log([Base("write", 0) EXCEPT !.dbf = dbf, !.upd = Pairs(u), !.ks = SetSeq(ks),
+    /\ LET ks == DOMAIN u \cup extra IN
+       \E cut \in {0} \cup {c \in CutsHere : c <= Cardinality(ks)} :
+         LET gone == IF cut = 0 THEN {} ELSE {k \in ks : Present(k) /\ Cardinality({y \in ks : y < k}) < cut - 1}
+             failedDel == ~dbf /\ (down \/ cut > 0) IN
+         /\ cut > 0 => ~down /\ ~dbf
+         /\ Write(u, ks, dbf, IF dbf THEN "dberr" ELSE "ok", gone, cut)
+         /\ tasks' = IF failedDel THEN tasks \cup (ks \ gone) ELSE tasks
+         /\ Log([Base("write", 0) EXCEPT !.dbf = dbf, !.cut = cut, !.upd = Pairs(u), !.ks = SetSeq(ks),
                    !.r = IF dbf THEN "dberr" ELSE "ok"])
 
 MDel(k) ==
-  /\ Write(<<>>, {k}, FALSE, "ok", {})
+  /\ Write(<<>>, {k}, FALSE, "ok", {}, 0)
   /\ tasks' = IF down THEN tasks \cup {k} ELSE tasks
   /\ Log([Base("del", k) EXCEPT !.ks = <<k>>, !.r = "ok"])
 
@@ -181,11 +213,19 @@ ServedFromCache ==
 \* database errors are returned and never cached
 ErrorsNotCached == IsRead /\ (last'.dbf \/ last'.dbf2) => last'.r = "dberr" /\ cache' = cache
 \* a failing store is reported without querying the database
-FailFast == IsRead /\ down => last'.r = "cerr" /\ last'.nq = 0 /\ cache' = cache
+FailFast == IsRead /\ (down \/ last'.cut = 1) => last'.r = "cerr" /\ last'.nq = 0 /\ cache' = cache
 \* after the cleaner has succeeded nothing is left of its keys
 CleanerRestores == Op("cleaner") /\ last'.r = "ok" => \A j \in DOMAIN last'.ks : cache'[last'.ks[j]] = NoEntry
 \* a write leaves no entry behind that differs from the database, unless its invalidation failed
-WriteInvalidates == Op("write") /\ ~down /\ ~last'.dbf => \A j \in DOMAIN last'.ks : cache'[last'.ks[j]] = NoEntry
+WriteInvalidates == Op("write") /\ ~down /\ ~last'.dbf /\ last'.cut = 0 => \A j \in DOMAIN last'.ks : cache'[last'.ks[j]] = NoEntry
+\* ... and then every key of the write that keeps an entry is owed to the cleaner (which has a task for it)
+WriteOwes == Op("write") /\ ~last'.dbf /\ (down \/ last'.cut > 0) =>
+               \A j \in DOMAIN last'.ks : cache'[last'.ks[j]] # NoEntry => last'.ks[j] \in pendingDel' \cap tasks'
+\* an outage that begins inside an operation leaves the store down and never a half-written entry
+CutClean == last'.n # last.n /\ last'.cut > 0 =>
+              /\ down'
+              /\ \A k \in Keys : cache'[k] # cache[k] /\ cache'[k] # NoEntry =>
+                    cache'[k].exp > now /\ (last'.op \in {"take", "index"} => cache'[k].v = Want(k))
 
 PropReadsTrue        == [][ReadsTrue]_mvars
 PropStaleOnlyKnown   == [][StaleOnlyKnown]_mvars
@@ -194,6 +234,8 @@ PropErrorsNotCached  == [][ErrorsNotCached]_mvars
 PropFailFast         == [][FailFast]_mvars
 PropCleanerRestores  == [][CleanerRestores]_mvars
 PropWriteInvalidates == [][WriteInvalidates]_mvars
+PropWriteOwes        == [][WriteOwes]_mvars
+PropCutClean         == [][CutClean]_mvars
 
 \* every entry carries a finite TTL derived from an expiry in use
 MaxTTL == LET es == {ExpDs, NfDs} \cup SetExpDs
@@ -204,5 +246,5 @@ FiniteTTL == \A k \in Keys : Present(k) => cache[k].exp - now >= 1 /\ cache[k].e
 PrintHist == (Emit /\ Len(hist) > 0) =>
   PrintT("TRACE " \o ToJson([j \in DOMAIN hist |->
      [op |-> hist[j].op, k |-> hist[j].k, v |-> hist[j].v, dbf |-> hist[j].dbf, dbf2 |-> hist[j].dbf2,
-      flip |-> hist[j].flip, d |-> hist[j].d, e |-> hist[j].e, ks |-> hist[j].ks, upd |-> hist[j].upd]]))
+      flip |-> hist[j].flip, cut |-> hist[j].cut, d |-> hist[j].d, e |-> hist[j].e, ks |-> hist[j].ks, upd |-> hist[j].upd]]))
 =============================================================================
